@@ -14,21 +14,21 @@ import (
 
 // C08 — every client call ends when its connection or context ends; nothing leaks.
 //
-//   R-wait-has-exit     every blocking wait on a client path has an arm on the caller's ctx.Done() (when the
-//                       function has a ctx) and an arm on transport shutdown / a timer; the retry executor's
-//                       waits are selects with a ctx arm (shared with C17)
-//   R-watcher-cancels   after the child process has been reaped, every path on which the transport was not
-//                       closed deliberately cancels the transport context
-//   R-body-owner        every *http.Response obtained on a client path has its Body closed on all paths:
-//                       closed/deferred here, handed to a callee that closes it, or its closer stored for close()
-//   R-release-on-close  each resource-typed field of a client transport (cancel func, closers, child process)
-//                       is released through that field in the transport's close, and close is idempotent
-//   R-goroutine-exit    every loop in a goroutine the clients start has an exit edge
-//   R-single-closer     a pending channel is closed by whoever removes it from the table (same critical section)
-//   R-table-pair        an entry inserted into a session/stream/pending table by a handler is removed again on
-//                       every path to that handler's exit
-//   R-reader-teardown   a background reader that tears the transport down does so on every return
-//   (R-watcher-cancels also requires that nothing blocking precedes cmd.Wait)
+//	R-wait-has-exit     every blocking wait on a client path has an arm on the caller's ctx.Done() (when the
+//	                    function has a ctx) and an arm on transport shutdown / a timer; the retry executor's
+//	                    waits are selects with a ctx arm (shared with C17)
+//	R-watcher-cancels   after the child process has been reaped, every path on which the transport was not
+//	                    closed deliberately cancels the transport context
+//	R-body-owner        every *http.Response obtained on a client path has its Body closed on all paths:
+//	                    closed/deferred here, handed to a callee that closes it, or its closer stored for close()
+//	R-release-on-close  each resource-typed field of a client transport (cancel func, closers, child process)
+//	                    is released through that field in the transport's close, and close is idempotent
+//	R-goroutine-exit    every loop in a goroutine the clients start has an exit edge
+//	R-single-closer     a pending channel is closed by whoever removes it from the table (same critical section)
+//	R-table-pair        an entry inserted into a session/stream/pending table by a handler is removed again on
+//	                    every path to that handler's exit
+//	R-reader-teardown   a background reader that tears the transport down does so on every return
+//	(R-watcher-cancels also requires that nothing blocking precedes cmd.Wait)
 func init() { Registry["C08"] = checkC08 }
 
 func checkC08(c *Ctx) {
